@@ -2,7 +2,16 @@ package main
 
 func init() {
 	registry["C12"] = func(c *Ctx) {
+		c.Clause("every access to a field in the lock table happens with its lock class held (write mode for stores), on the same instance where comparable; thread-local objects (fresh allocations, pool copies, constructor phase) are exempt by computed provenance")
+		c.Clause("fields in the atomic table are touched only through sync/atomic; fields in the immutable table are stored only before publication")
+		c.Clause("no lock is re-acquired while held (callbacks resolved through the VTA call graph); the lock-order graph is acyclic; no lock is held across a handler call")
+		c.Clause("every lock is released on every exit; no may-panic call between a non-deferred Lock and its Unlock")
+		c.Clause("WaitGroup.Add for probe goroutines is joinable by Stop")
+		c.NotDecided("races through aliases the field-based analysis cannot see (cfg.LoadBalancer.Strategy written by SetStrategy); races inside third-party code; deadlocks that need a specific blocking I/O pattern — this is a lint-grade race analysis, not a proof of race freedom")
 		lockDiscipline(c, nil)
 		lockPairing(c, nil)
+		lockOrder(c)
+		c.waitGroupJoinable()
+		c.snapshotNoEscape()
 	}
 }
